@@ -41,6 +41,9 @@ type verifNet struct {
 // bytes delivered before the connection drops (len(blob) = complete body).
 func (n *verifNet) answer() (status, k int) {
 	n.attempts++
+	if verif.Symbolic() {
+		verif.Assume(n.attempts <= n.max) // bound of the run (a native handler thread must not panic)
+	}
 	switch verif.Choice("origin_outcome", 4) {
 	case 0:
 		return 200, len(n.blob)
@@ -48,6 +51,9 @@ func (n *verifNet) answer() (status, k int) {
 		status = verif.IntRange("status", 201, 599) // final statuses other than 200
 		if status == 202 {
 			n.accepted++
+			if verif.Symbolic() {
+				verif.Assume(n.accepted <= n.maxAccept)
+			}
 		}
 		return status, 0
 	case 2:
